@@ -138,7 +138,14 @@ func HarnessC26History() {
 	files := []lvFile{{}, {}}
 	steps := vParam("steps", 2)
 	for s := 0; s < steps; s++ {
-		switch nondetRange("op", 0, 8) {
+		switch nondetRange("op", 0, 9) {
+		case 9:
+			// b.mtail is renamed over a.mtail
+			if files[1].present {
+				vfsRename(names[1], names[0])
+				files[0] = lvFile{present: true, content: files[1].content, running: files[0].running}
+				files[1].present, files[1].content = false, ""
+			}
 		case 0:
 			vfsWrite(names[0], lvV1)
 			files[0].present, files[0].content = true, lvV1
@@ -149,8 +156,8 @@ func HarnessC26History() {
 			vfsWrite(names[0], lvBad)
 			files[0].present, files[0].content = true, lvBad
 		case 3:
-			vfsWrite(names[1], lvV1)
-			files[1].present, files[1].content = true, lvV1
+			vfsWrite(names[1], lvV2)
+			files[1].present, files[1].content = true, lvV2
 		case 4:
 			vfsRemove(names[0])
 			files[0].present, files[0].content = false, ""
